@@ -528,6 +528,7 @@ def extract(build, ir_text=None):
         if mf not in fn_ids:
             raise ExtractError("Cap.modeFunctions: function %s is not in the slice" % mf)
     M.mode_tracked, M.mode_untracked, M.mask_tracked, M.assert_choices = [], [], [], []
+    M.guard_tracked = []
     M.param_slot = {}
     for pf in M.param_modes:
         if pf not in fdefs:
@@ -541,14 +542,21 @@ def extract(build, ir_text=None):
         chains = []
         mode_ev = _mode_track(M, f)
         mask_ev, var_asserts = _mask_track(M, f)
-        if mask_ev or var_asserts:
-            if name in M.mode_functions or name in M.param_modes:
-                raise ExtractError("%s: a tracked assert-mask variable next to another tracked variable kind" % name)
-            if mode_ev:                       # two variables packed in one word: assignments keep the other half
-                mode_ev = {k: (("modeUpd", HI_KEEP, v[1]) if v[0] == "modeSet" else v) for k, v in mode_ev.items()}
-                mask_ev = {k: (("modeUpd", LO_KEEP, v[1]) if v[0] == "modeSet" else v) for k, v in mask_ev.items()}
-            mode_ev = dict(mode_ev)
-            mode_ev.update(mask_ev)
+        guard_ev, guard_br = {}, {}
+        if name not in M.mode_functions and name not in M.param_modes:
+            excl = set(v for n_, v in M.mode_tracked + M.mask_tracked if n_ == name)
+            guard_ev, guard_br, ginfo = _guard_track(M, f, excl)
+            if ginfo:
+                M.guard_tracked.append((name, ginfo))
+        if (mask_ev or var_asserts) and (name in M.mode_functions or name in M.param_modes):
+            raise ExtractError("%s: a tracked assert-mask variable next to another tracked variable kind" % name)
+        if (1 if mode_ev else 0) + (1 if mask_ev or var_asserts else 0) + (1 if guard_ev else 0) > 1:
+            # several variables packed in one word: an assignment keeps the other fields
+            mode_ev = {k: (("modeUpd", _keep(LO_KEEP), v[1]) if v[0] == "modeSet" else v) for k, v in mode_ev.items()}
+            mask_ev = {k: (("modeUpd", _keep(HI_KEEP), v[1]) if v[0] == "modeSet" else v) for k, v in mask_ev.items()}
+        mode_ev = dict(mode_ev)
+        mode_ev.update(mask_ev)
+        mode_ev.update(guard_ev)
         if name in M.param_modes:
             if mode_ev:
                 raise ExtractError("%s: Cap.paramModes function has a tracked local as well" % name)
@@ -597,8 +605,16 @@ def extract(build, ir_text=None):
         for b, lasts in chains:
             if b.term == "indirectbr":
                 raise ExtractError("indirectbr in slice function " + name)
+            targets = [first[s] for s in b.succs]
+            if b.label in guard_br:            # conditional branch on a guard variable: one modeTest node per edge
+                field, arms = guard_br[b.label]
+                targets = []
+                for (val, eq), s_ in zip(arms, b.succs):
+                    targets.append(len(nodes))
+                    nodes.append([fn_ids[name], ("modeTest", field, val, eq), [first[s_]]])
+                    M.node_src.append((name, b.label, b.term_text))
             for last in lasts:
-                nodes[last][2] = [] if nodes[last][1][0] == "ret" else [first[s] for s in b.succs]
+                nodes[last][2] = [] if nodes[last][1][0] == "ret" else list(targets)
         entry_of[name] = first[f.blocks[0].label]
     M.nodes = nodes
     M.fn_ids = fn_ids
@@ -755,9 +771,102 @@ def _mode_track_result(M, f):
     return out
 
 
-SHIFT = 16                             # the tracked assert-mask variable lives in bits 16.. of the activation's word
-LO_KEEP = (1 << SHIFT) - 1
-HI_KEEP = 0xFFFFFFFF << SHIFT
+SHIFT = 16                             # the tracked assert-mask variable lives in bits 16..47 of the activation's word
+LO_KEEP = (1 << SHIFT) - 1             # field of the open(2)-flags variable
+HI_KEEP = 0xFFFFFFFF << SHIFT          # field of the assert-mask variable
+GUARD_SHIFT = 48                       # guard variables: one 8-bit field each, from bit 48
+GUARD_BITS = 8
+MAX_GUARDS = 4
+ALLW = (1 << (GUARD_SHIFT + GUARD_BITS * MAX_GUARDS)) - 1
+
+
+def _keep(field):
+    """`keep` operand of modeUpd for an assignment to `field`: every other field of the word"""
+    return ALLW & ~field
+
+
+def _guard_track(M, f, exclude):
+    """Guard variables of one function: i32 locals that are only ever assigned integer constants 0..255 (address never
+    used for anything but load/store) and that decide at least one conditional branch `br (icmp eq|ne (load x), K)`.
+    Each gets an 8-bit field of the activation's word.
+    -> ({id(store inst): ('modeUpd', keep, value << off)},
+        {block label: (field mask, [(value << off, eq) for the true edge, (.., not eq) for the false edge])},
+        [(alloca, offset, values, branch blocks)])
+    Anything not recognised is simply not tracked (no guard = every path possible = over-approximation)."""
+    allocas = []
+    for b in f.blocks:
+        for i in b.insts:
+            m = re.match(r'(%[\w.]+) = alloca i32\b', i.text)
+            if m and m.group(1) not in exclude:
+                allocas.append(m.group(1))
+    cands = {}
+    for v in allocas:
+        pat = re.compile(r'(?<![\w.])' + re.escape(v) + r'(?![\w.])')
+        ld = re.compile(r'%[\w.]+ = load i32, i32\* ' + re.escape(v) + r',')
+        st = re.compile(r'store i32 (-?\d+), i32\* ' + re.escape(v) + r',')
+        ok, stores, vals = True, [], set()
+        for b in f.blocks:
+            for i in b.insts:
+                t = i.text
+                if not pat.search(t):
+                    continue
+                if re.match(re.escape(v) + r' = alloca i32\b', t) or ld.match(t):
+                    continue
+                ms = st.match(t)
+                if ms and 0 <= int(ms.group(1)) < (1 << GUARD_BITS):
+                    stores.append((i, int(ms.group(1))))
+                    vals.add(int(ms.group(1)))
+                    continue
+                ok = False
+                break
+            if not ok:
+                break
+            if b.term_text and pat.search(b.term_text):
+                ok = False
+                break
+        if ok and stores:
+            cands[v] = (stores, vals)
+    # conditional branches decided by a candidate
+    branches = {}
+    for b in f.blocks:
+        if b.term != "br" or len(b.succs) != 2:
+            continue
+        mb = re.match(r'br i1 (%[\w.]+), label ', b.term_text)
+        if not mb:
+            continue
+        defs = {}
+        pos = {}
+        for k, x in enumerate(b.insts):
+            if " = " in x.text:
+                r = x.text.split(" = ")[0]
+                defs[r] = x.text
+                pos[r] = k
+        mc = re.match(r'%[\w.]+ = icmp (eq|ne) i32 (%[\w.]+), (-?\d+)$', defs.get(mb.group(1), ""))
+        if not mc:
+            continue
+        ml = re.match(r'%[\w.]+ = load i32, i32\* (%[\w.]+),', defs.get(mc.group(2), ""))
+        if not ml or ml.group(1) not in cands:
+            continue
+        v, kc = ml.group(1), int(mc.group(3))
+        if not 0 <= kc < (1 << GUARD_BITS):
+            continue
+        # the variable must not be assigned between the load and the branch
+        if any(re.match(r'store i32 \S+, i32\* ' + re.escape(v) + r',', x.text) for x in b.insts[pos[mc.group(2)]:]):
+            continue
+        branches.setdefault(v, []).append((b.label, mc.group(1) == "eq", kc))
+    chosen = [v for v in allocas if v in branches][:MAX_GUARDS]
+    evs, brs, info = {}, {}, []
+    for k, v in enumerate(chosen):
+        off = GUARD_SHIFT + GUARD_BITS * k
+        field = ((1 << GUARD_BITS) - 1) << off
+        for i, c in cands[v][0]:
+            evs[id(i)] = ("modeUpd", _keep(field), c << off)
+        for lab, is_eq, kc in branches[v]:
+            if lab in brs:
+                continue
+            brs[lab] = (field, [(kc << off, is_eq), (kc << off, not is_eq)])
+        info.append((v, off, sorted(cands[v][1]), [b_[0] for b_ in branches[v]]))
+    return evs, brs, info
 
 
 def _param_fixed(f, idx):
@@ -998,9 +1107,13 @@ def certify(M):
                 elif op[0] == "modeUpd":
                     out, om = k, (mode & op[1]) | op[2]
                 elif op[0] == "assertMd":
-                    out = _minimise(list(k) + _bits(mode >> op[1]))
+                    out = _minimise(list(k) + _bits((mode >> op[1]) & 0xFFFFFFFF))
                 elif op[0] == "modeGuard":
                     if (mode == op[1]) != op[2]:
+                        continue
+                    out = k
+                elif op[0] == "modeTest":
+                    if ((mode & op[1]) == op[2]) != op[3]:
                         continue
                     out = k
                 elif op[0] == "call":
@@ -1090,9 +1203,12 @@ def check(M, C):
             elif op[0] == "modeUpd":
                 edges((m & op[1]) | op[2], lambda g: _imp(g, k))
             elif op[0] == "assertMd":
-                edges(m, lambda g: (g & (m >> op[1])) != 0 or _imp(g, k))
+                edges(m, lambda g: (g & ((m >> op[1]) & 0xFFFFFFFF)) != 0 or _imp(g, k))
             elif op[0] == "modeGuard":
                 if (m == op[1]) == op[2]:
+                    edges(m, lambda g: _imp(g, k))
+            elif op[0] == "modeTest":
+                if ((m & op[1]) == op[2]) == op[3]:
                     edges(m, lambda g: _imp(g, k))
             elif op[0] == "havoc":
                 edges(m, lambda g: False)
@@ -1108,7 +1224,7 @@ def check(M, C):
                 for r in need(M, op[1], op[2], m):
                     if not _imp(r, k):
                         bad.append(dict(kind="uncovered", fn=name, node=n, call=op[2], need=r, known=list(k), mode=m & LO_KEEP,
-                                        asserted_mask=m >> SHIFT, reached=C.reached[n], src=M.node_src[n][2]))
+                                        asserted_mask=(m >> SHIFT) & 0xFFFFFFFF, guards=m >> GUARD_SHIFT, reached=C.reached[n], src=M.node_src[n][2]))
     return bad
 
 
@@ -1212,6 +1328,8 @@ def render(M, C, origin="current tree"):
             return "(.assertMd %d)" % t[1]
         if t[0] == "modeGuard":
             return "(.modeGuard %d %s)" % (t[1], "true" if t[2] else "false")
+        if t[0] == "modeTest":
+            return "(.modeTest %d %d %s)" % (t[1], t[2], "true" if t[3] else "false")
         if t[0] == "havoc":
             return ".havoc"
         if t[0] == "ret":
@@ -1260,6 +1378,7 @@ def render(M, C, origin="current tree"):
     o.append("abbrev graph : Graph := ⟨%d, nodeAt, fnEntryAt, entryFns⟩\n" % len(M.nodes))
     o.append("-- functions whose open(2) flags / fopen mode variable is tracked: %s; untracked (mode 3 = both capabilities required): %s" % (M.mode_tracked, M.mode_untracked))
     o.append("-- assert-mask variables tracked (bits %d.. of the word): %s; asserts on a select/phi of constants: %s" % (SHIFT, M.mask_tracked, M.assert_choices))
+    o.append("-- guard variables (int locals assigned only constants, deciding a conditional branch; 8-bit fields from bit %d): %s" % (GUARD_SHIFT, M.guard_tracked))
     table("certK", "List Case", ["[" + ", ".join("(%d, %s)" % (m, _lnat_list(k)) for m, k in cs) + "]" for cs in C.K], "[]",
           "UNTRUSTED certificate (checked by `certOK`): cases known on entry to node n")
     table("certPost", "List Nat", [_lnat_list(k) for k in C.post], "[]", "untrusted: postcondition of function n")
